@@ -47,3 +47,33 @@ Example C09_nonvacuous :
                   OSetNow 100; OReadSync None None None; ODrain] (a_empty 0) in
   a_live a = [] /\ length (a_bcast a) = 2%nat.
 Proof. vm_compute. split; reflexivity. Qed.
+
+From XS Require Import Proofs.SpecP2.
+(* time:N - physically gone once the collector has drained after a read that covered it *)
+Theorem C09_time_gone_after_drain : forall a c f,
+  In f (a_live a) -> in_scope c f = true -> expired (a_now a) f = true ->
+  ~ In f (a_live (a_drain (snd (a_read_sync a None None c)))).
+Proof. exact expired_collected. Qed.
+Theorem C09_time_gone_after_drain_stream : forall a c f,
+  In f (a_live a) -> in_scope c f = true -> expired (a_now a) f = true ->
+  ~ In f (a_live (a_drain (snd (a_read_hist a None None c)))).
+Proof. exact expired_collected_hist. Qed.
+Print Assumptions C09_time_gone_after_drain.
+Print Assumptions C09_time_gone_after_drain_stream.
+
+(* head:N - after the collector has drained, a (context, topic) whose newest frame carries
+   head:N holds at most N frames.  Hypotheses [wf4_run]: no imports, appended ids are newer
+   than every live id, and NO RESTART: *)
+Theorem C09_head_bound_after_drain : forall now ops c t g n,
+  wf4_run ops (a_empty now) ->
+  let a := after0 now ops in
+  a_gcq a = [] -> a_head a t c = Some g -> f_ttl g = Some (Head n) ->
+  (length (filter (same_topic c t) (a_live a)) <= N.to_nat n)%nat.
+Proof. exact head_bound_after_drain. Qed.
+Print Assumptions C09_head_bound_after_drain.
+
+(* KNOWN FINDING (C09-restart-forgets-head-gc): the full statement is FALSE across a restart -
+   queued head collections live in memory only, so a restart before the collector ran leaves
+   more than N frames until the next append to that topic.  Witness (replayed on the
+   implementation on every run, corpus/C09/restart_forgets_head_gc.txt): *)
+Check head_bound_needs_no_reopen.
